@@ -120,6 +120,12 @@ func inflTok(s string) string {
 
 func execMinter(x *Exec, toks []string) string {
 	f := mf(x)
+	if strings.HasPrefix(toks[0], "m.up.") {
+		if toks[0] == "m.up.migrate3" {
+			f.updated = true
+		}
+		return execMinterMigrate(x, toks)
+	}
 	k := x.env.app.CfeminterKeeper
 	switch toks[0] {
 	case "m.cfg":
